@@ -41,8 +41,8 @@ CHECKS.update({
         note="Save/Delete/Copy are treated as atomic; a crash is modelled between storage operations. UpdateRetainedCheckpoints is issued only when no checkpoint save is pending.",
         technique="property-based testing with crash-point enumeration over a journaled file system; snapshot oracle"),
     "C09": dict(level="exploration", design="DESIGN.md section 4 C09",
-        text="DKV part: generated histories with checkpoints, retention updates, forced garbage collection and reopening on the same storage in the same process; after every step every file referenced by a retained checkpoint document must exist, every retained checkpoint must restore to its snapshot, WAL files of dropped checkpoints must be gone after the retention update, and the live database must answer every read. One genuine defect (previous database object deleting files after a same-process reopen) is an open known finding and is excluded by construction.",
-        note="GC timing is explored at forced collection points only. The neighbour part (NeedsTable errors after a rescale) is part of the operator-level check when built.",
+        text="DKV part: generated histories with checkpoints, retention updates, forced garbage collection and reopening on the same storage in the same process; after every step every file referenced by a retained checkpoint document must exist, every retained checkpoint must restore to its snapshot, WAL files of dropped checkpoints must be gone after the retention update, and the live database must answer every read. One genuine defect (previous database object deleting files after a same-process reopen) is an open known finding and is excluded by construction. Operator part (TestPropNeighbours): a real operator writes state and checkpoints, the job is rescaled 1 -> 2..3 through the real Assembly.Deploy so that the new operators share the old tables, they rewrite and compact, run 1..3 rounds of checkpoint + UpdateRetainedCheckpoints with forced garbage collection, while each neighbour's NeedsTable answers truthfully, with an error, or not at all (drawn plan); every table named by a checkpoint document an operator retains must still exist, and every operator must answer reads of its keys.",
+        note="GC timing is explored at forced collection points only. An unreachable and a slow neighbour are both modelled as an error answer of NeedsTable.",
         technique="property-based testing: rapid stateful histories with forced GC, file-existence invariant over a journaled file system"),
 })
 
